@@ -56,6 +56,11 @@ func runC02(c *Ctx) {
 	// the label-level twins are compared exactly: both are evaluated as Boolean
 	// functions of the label bytes and must equal the same grammar (c03exact.go)
 	exact := c03LabelsExact(c, "C02")
+	// the name-level twins are compared exactly on short ASCII names as well
+	// (C02.name-exact), but that comparison does not see where idna.ToASCII
+	// sits or which text the 253-byte limit measures: the skeleton comparison
+	// of the pair stays
+	c03NamesExact(c, "C02")
 	for _, pr := range pairs {
 		fa, fb := c.fn("netutil", pr[0]), c.fn("netutil", pr[1])
 		if fa == nil || fb == nil {
